@@ -62,6 +62,9 @@ func (sc *Scope) heap(name string, s Sort) Term {
 	if sc.inOld && sc.old != nil {
 		st = sc.old
 	}
+	if name == "$top" {
+		return st.top
+	}
 	return st.Heap(sc.vc, name, s)
 }
 
@@ -655,6 +658,9 @@ func (sc *Scope) trCall(x ECall) (Term, types.Type) {
 		n.st = sc.pre
 		n.inOld = false
 		return (&n).Tr(x.Args[0])
+	case "lastselect":
+		// outcome of the most recent non-blocking select: 0 = received (cancelled), -1 = default
+		return sc.heap("sel!last", SInt), tInt
 	case "len":
 		a, t := sc.Tr(x.Args[0])
 		switch u := t.Underlying().(type) {
@@ -696,11 +702,15 @@ func (sc *Scope) trCall(x ECall) (Term, types.Type) {
 		} else if a.Sort == SIface {
 			r = IfVal(a)
 		}
-		st := sc.st
-		if sc.inOld && sc.old != nil {
-			st = sc.old
+		return Le(Base(r), sc.heap("$top", SInt)), tBool
+	case "live":
+		// live(p): p is an allocated object of its static (pointer-to-struct) type
+		a, t := sc.Tr(x.Args[0])
+		pt, ok := t.Underlying().(*types.Pointer)
+		if !ok {
+			sfail("live() needs a pointer")
 		}
-		return Le(Base(r), st.top), tBool
+		return And(Not(Eq(a, IntLit(0))), Eq(RType(a), IntLit(int64(sc.vc.tagOf(pt.Elem())))), Le(Base(a), sc.heap("$top", SInt))), tBool
 	case "ite":
 		c, _ := sc.Tr(x.Args[0])
 		a, ta := sc.Tr(x.Args[1])
